@@ -12,6 +12,7 @@ struct Mat {
     std::vector<int> colptr, rowind;
     std::vector<double> re, im;
     std::string family;
+    std::vector<int> trans;   // generator only: index of the structural transversal entry of every column (not serialised)
     int nnz() const { return (int)rowind.size(); }
 };
 
@@ -80,6 +81,8 @@ static inline Mat gen_pattern(Rng &r, int n, int m, const std::string &family) {
     if (m > n) for (int i = n; i < m; i++) if (r.chance(0.7)) add(i, r.range(0, n - 1));
     Mat A = mat_from_pattern(m, n, P);
     A.family = family;
+    A.trans.assign(n, -1);
+    for (int j = 0; j < n; j++) for (int k = A.colptr[j]; k < A.colptr[j + 1]; k++) if (A.rowind[k] == perm[j]) A.trans[j] = k;
     return A;
 }
 
@@ -101,10 +104,12 @@ static inline void gen_values(Rng &r, Mat &A, const std::string &mode, bool cplx
     if (mode == "dominant") {
         // make one entry per column dominant: the first stored one on the structural transversal is unknown after
         // row permutation, so boost the entry of largest magnitude in each column
+        // strictly dominant on the structural transversal (one entry per row and column): nonsingular, modest growth
         for (int j = 0; j < A.n; j++) {
-            int best = -1; double bm = -1;
-            for (int k = A.colptr[j]; k < A.colptr[j + 1]; k++) { double a = std::fabs(A.re[k]) + std::fabs(A.im[k]); if (a > bm) { bm = a; best = k; } }
-            if (best >= 0) A.re[best] += (A.re[best] >= 0 ? 1 : -1) * (2.0 + (A.colptr[j + 1] - A.colptr[j]));
+            int best = (j < (int)A.trans.size()) ? A.trans[j] : -1; double bm = -1;
+            if (best < 0) for (int k = A.colptr[j]; k < A.colptr[j + 1]; k++) { double a = std::fabs(A.re[k]) + std::fabs(A.im[k]); if (a > bm) { bm = a; best = k; } }
+            if (best >= 0) { double sum = 0; for (int k = A.colptr[j]; k < A.colptr[j + 1]; k++) if (k != best) sum += std::fabs(A.re[k]) + std::fabs(A.im[k]);
+                A.re[best] = (A.re[best] >= 0 ? 1 : -1) * (sum + 1.0 + std::fabs(A.re[best])); }
         }
     } else if (mode == "scaled") {
         std::vector<double> rs(A.m), cs(A.n);
